@@ -291,7 +291,7 @@ def run_harness(h: Harness, *, tier: str, known_active: set[str], seed: int = 0)
             outcome = 'backedge'
         if outcome in ('done', 'backedge') and h.native_check and not eng.no_crosscheck:
             if eng.solver.check() == z3.sat:
-                m = eng.solver.model()
+                m = eng.finite_model()
                 model = eng._extract_model(m)
                 pred = evaluate(m, res)
         paths.append(_engine.PathResult(no=len(paths), decisions=[c for _, c, k in eng.taken if k == 'n'],
@@ -340,6 +340,10 @@ def run_harness(h: Harness, *, tier: str, known_active: set[str], seed: int = 0)
         step = max(1, len(done) // limit)
         for i in done[::step]:
             p = paths[i]
+            if not _representable(p.model):
+                # the solver's witness is not a JSON document (an object with a value for 'every other key', a list holding
+                # 'absent'): CPython cannot run it; the path stays verified symbolically, it is just not cross-checked
+                continue
             try:
                 eng = Engine(model=p.model, decisions=p.decisions)
                 outcome, res = _engine.run_once(body, eng)
@@ -377,6 +381,19 @@ def run_harness(h: Harness, *, tier: str, known_active: set[str], seed: int = 0)
         crosscheck_mismatch=mismatches, wall_s=time.time() - t0, solver_s=solver_s,
         stubs_used=sorted(stubs), assumptions=sorted(assumptions) + [f'trusted: {t}' for t in h.trusted],
         sources=sources, samples=samples, truncated=truncated)
+
+
+def _representable(model, depth=0) -> bool:
+    from .values import ABSENT
+    if depth > 12:
+        return True
+    if isinstance(model, dict):
+        if '<every-other-key>' in model or '<unparsed>' in model:
+            return False
+        return all(_representable(v, depth + 1) for v in model.values())
+    if isinstance(model, (list, tuple)):
+        return all(x is not ABSENT and _representable(x, depth + 1) for x in model)
+    return True
 
 
 def _own_unbound_variable(e: BaseException):
